@@ -409,7 +409,9 @@ var fjvTexts = []string{`"null"`, `"true"`, `"false"`, `"0"`, `"-1"`, `"1.5"`, `
 	`"[]"`, `"[1,[2]]"`, `"[3,1,2]"`, `"[\"b\",\"a\"]"`, `"{}"`, `"{\"a\":{\"b\":1}}"`, `"{\"_start\":5}"`, `"{\"d\":4,\"b\":{\"x\":1},\"a\":[1,\"x\"],\"c\":\"s\",\"e\":null}"`}
 
 // keyProbes: probes that look up a string key. doc/usage.md, "Differences to jq":
-//   "Some values can act as an object with keys even when it's an array, number etc."
+//
+//	"Some values can act as an object with keys even when it's an array, number etc."
+//
 // fromjson returns such a value (a decode value), so for these probes, and only
 // these, the documented behaviour on a non-object is the value on the right.
 var keyProbes = map[string]string{
